@@ -24,6 +24,10 @@ DoUpdate == /\ phase = "upd" /\ Len(upds) < MaxUpd
                   /\ (UVals[u] = <<>> => meta[1].k # Keys[k].n)     \* a first line "key:" with no value is not metadata by the syntax
                   /\ meta' = Update(meta, k, u) /\ upds' = Append(upds, [k |-> k, u |-> u])
             /\ UNCHANGED <<doc, phase>>
+\* a key written twice in the block (the first occurrence is the one that is reported and replaced; both are listed): three shapes, two terminators
+DupDocs == {[fence |-> FALSE, entries |-> es, term |-> t, body |-> 2] :
+              es \in {<<[k |-> 2, v |-> 1], [k |-> 3, v |-> 2], [k |-> 2, v |-> 3]>>, <<[k |-> 2, v |-> 1], [k |-> 2, v |-> 3], [k |-> 3, v |-> 2]>>, <<[k |-> 3, v |-> 2], [k |-> 2, v |-> 1], [k |-> 2, v |-> 3]>>}, t \in {1, 3}}
+InitDup == doc \in DupDocs /\ meta = MetaOf(doc) /\ upds = <<>> /\ phase = "upd"
 Next == AddEntry \/ Seal \/ DoUpdate
 \* properties of the specified operations
 NoCharLost == phase = "upd" => \A i \in 1 .. Len(doc.entries) :
